@@ -25,13 +25,13 @@ type refBo struct {
 	total     int // sleep accounted since creation of the lineage / last Reset (ms)
 	excl      int // part of total slept by budget-excluded kinds
 	errorsNum int
-	parent    int // slot of the backoffer this one was forked from (-1: none); clones inherit it
-	ctx       int // context node
+	parent    int    // slot of the backoffer this one was forked from (-1: none); clones inherit it
+	ctx       int    // context node
 	cfgs      uint32 // mirror of Backoffer.configs as a set (UpdateUsingForked leaves the receiver's list alone)
 	listed    uint32 // kinds GetTypes must list whatever a merge does with the list: own and inherited records, intersected on merge
-	sleepMS   []int // per kind, lifetime of the lineage (Reset does not clear it)
-	times     []int // per kind, lifetime of the lineage
-	attempts  []int // per kind, completed sleeps of this backoffer since creation / last Reset
+	sleepMS   []int  // per kind, lifetime of the lineage (Reset does not clear it)
+	times     []int  // per kind, lifetime of the lineage
+	attempts  []int  // per kind, completed sleeps of this backoffer since creation / last Reset
 }
 
 type refState struct {
